@@ -87,6 +87,12 @@ Emitted == /\ (base = FullBase => muts # <<>>)
 -----------------------------------------------------------------------------
 (* L1: outcome alphabet and sequencing of one run                                          *)
 Stages == <<"load", "validate", "marshal_json", "marshal_yaml", "internalize", "validate_after">>
+(* reference-graph cases (RefGraph.tla) are pushed through every further entry point that takes a loaded document:          *)
+(* T.Validate with every option switched on / off, the validator and the serialiser of every part of the document on its      *)
+(* own (components, each component, paths, each path item and operation, the media types and encodings of bodies and          *)
+(* headers), Loader.ResolveRefsIn on the loaded document, and -- a history of two -- serialising and internalising the        *)
+(* internalised document again.                                                                                               *)
+GraphStages == <<"validate_enabled", "validate_disabled", "validate_parts", "marshal_parts", "resolve_again", "marshal_after", "internalize_again">>
 Normal == {"ok", "error"}
 Abnormal == {"panic", "hang", "crash"}
 
